@@ -120,9 +120,6 @@ def snap_entity(entity, with_type=True) -> dict:
         }
     if hasattr(entity, "children"):
         kids = [c for c in entity.children if hasattr(c, "entity_type")]
-        if "pgs" in node:
-            # property groups sit in the child list too: it must name exactly the groups `property_groups` gives
-            node["pg_children"] = sorted(str(c.uid) for c in entity.children if not hasattr(c, "entity_type"))
         node["children"] = sorted(str(c.uid) for c in kids)
         node["n_child_entries"] = len(kids)
     return node
@@ -132,6 +129,7 @@ def apisnap(ws, with_listings=True) -> dict:
     """Walk the tree from ws.root; returns {'nodes': {uid: node}, 'listings': {...}, 'dups': [...]}"""
     nodes: dict = {}
     dups: list = []
+    pg_children: dict = {}
 
     def walk(entity):
         key = str(entity.uid)
@@ -139,13 +137,16 @@ def apisnap(ws, with_listings=True) -> dict:
             dups.append(key)
             return
         nodes[key] = snap_entity(entity)
+        if "pgs" in nodes[key]:
+            # property groups sit in the child list too: it must name exactly the groups `property_groups` gives
+            pg_children[key] = sorted(str(c.uid) for c in entity.children if not hasattr(c, "entity_type"))
         for child in getattr(entity, "children", []) or []:
             if hasattr(child, "entity_type"):
                 walk(child)
 
     root = ws.root
     walk(root)
-    out = {"nodes": nodes, "dups": dups, "root": str(root.uid)}
+    out = {"nodes": nodes, "dups": dups, "root": str(root.uid), "pg_children": pg_children}
     if with_listings:
         listings = {}
         for name in ("groups", "objects", "data", "property_groups", "types"):
@@ -169,8 +170,8 @@ def diff_nodes(a: dict, b: dict, ignore=()) -> list:
             continue
         na, nb = a[uid], b[uid]
         for field in sorted(set(na) | set(nb)):
-            if field in ignore or field == "pg_children":
-                continue  # (judged inside one snapshot against `pgs`, see compare_model; a reference model keeps none)
+            if field in ignore:
+                continue
             if na.get(field) != nb.get(field):
                 out.append((uid, field, na.get(field), nb.get(field)))
     return out
